@@ -9,7 +9,8 @@ namespace Drv
 def parseVals (toks : List String) : Array BV4 := (toks.map BV4.ofString).toArray
 
 def resetCase (s : St) (id mode : String) : St :=
-  { s with caseId := id, mode := mode, vals := #[], net := #[], netTy := #[], xo := #[], env := #[], stim := "",
+  { s with caseId := id, mode := mode, vals := #[], net := #[], netTy := #[], netName := #[], xo := #[], env := #[], stim := "",
+           cycle := 0, runIsAbs := true, absSeqNv := #[], absSeqXv := #[],
            implNv := #[], absNv := #[], absXv := #[], haveAbs := false, unsafeReason := "", litStr := "", cases := s.cases + 1 }
 
 /-- `v <k> <op> a<i>… <num>… [str] -> <t> <w> <p>` | `… -> e` -/
@@ -18,7 +19,7 @@ def parseValLine (toks : List String) : ValRec := Id.run do
   let body := toks.takeWhile (· != "->")
   let res := (toks.dropWhile (· != "->")).drop 1
   r := { r with op := body.getD 0 "" }
-  if r.op == "pin" ∨ r.op == "lit" then
+  if r.op == "pin" ∨ r.op == "lit" ∨ r.op == "regq" then
     r := { r with spar := body.getD 3 "" }
   else
     for t in body.drop 1 do
@@ -72,7 +73,7 @@ def step (s : St) (line : String) : St :=
   | "net" :: _ => s
   | "n" :: rest =>
     match parseNode rest with
-    | some (n, ty, _) => { s with net := s.net.push n, netTy := s.netTy.push ty }
+    | some (n, ty, name) => { s with net := s.net.push n, netTy := s.netTy.push ty, netName := s.netName.push name }
     | none => (s.diff s!"kind=parse line=[{line.trimAscii.toString.take 200}]")
   | "xo" :: rest => { s with xo := (rest.map fun t => t.toNat!).toArray, env := Array.replicate s.vals.size [] }
   | "unsafe" :: i :: reason => { s with unsafeReason := " ".intercalate reason ++ " node=" ++ i }
@@ -97,15 +98,36 @@ def step (s : St) (line : String) : St :=
       else if allZero then ("any", "design-without-state-bits/crash")
       else (if s.mode == "op" then ops else "dag", if zero then "crash/simulation-zero-width" else "crash/simulation")
     s.propfail s!"op={opn} class={cls} signal=[{" ".intercalate rest}] ops=[{ops}] lit=[{s.litStr}]: the code under test crashed"
-  | "stim" :: k :: _ => { s with stim := k, haveAbs := false, stims := s.stims + 1 }
-  | "stimc" :: k :: _ => { s with stim := k, stims := s.stims + 1 }
+  | "stim" :: k :: _ => { s with stim := k, haveAbs := false, stims := s.stims + 1, runIsAbs := true, absSeqNv := #[], absSeqXv := #[] }
+  | "stimc" :: k :: _ => { s with stim := k, stims := s.stims + 1, runIsAbs := false }
+  | ["cyc", t] => { s with cycle := t.toNat!, stims := s.stims + 1 }
+  | "reg" :: _ => s
   | ["pv", k, bits] => { s with env := s.env.setIfInBounds k.toNat! (BV4.ofString bits) }
   | "nv" :: rest => { s with implNv := parseVals rest }
   | "xv" :: rest =>
     let xv := parseVals rest
     let s := checkNodes s s.implNv
     let s := checkOps s xv (!s.c08)
-    if s.mode == "conc" ∨ s.mode == "concw" then
+    if s.mode == "seq" then
+      -- sequential: the abstract run's values of cycle t are compared with every concretised run's values of cycle t
+      if s.runIsAbs then { s with absSeqNv := s.absSeqNv.push s.implNv, absSeqXv := s.absSeqXv.push xv }
+      else
+        let s := { s with concPairs := s.concPairs + 1, stim := s.stim ++ "@cycle" ++ toString s.cycle }
+        let absNv := s.absSeqNv.getD s.cycle #[]; let implNv := s.implNv; let net := s.net; let names := s.netName
+        -- a register is a source when the previous cycle was still compatible; reported like any other node
+        let srcOk := fun (i : Nat) =>
+          names.getD i "" == "reg" ||
+          ((net.getD i ⟨.signal, 0, []⟩).ins.all fun o => match o with
+            | none => true
+            | some j => BV4.compatB (absNv.getD j []) (implNv.getD j []))
+        let isSource := fun (i : Nat) =>
+          names.getD i "" != "reg" &&
+          ((net.getD i ⟨.signal, 0, []⟩).ins.all fun o => match o with
+            | none => true
+            | some j => BV4.leB (absNv.getD j []) (implNv.getD j []))
+        let s := checkCompat s "node" (fun i => if names.getD i "" == "reg" then "kind=reg" else nodeKindName s i) absNv implNv isSource srcOk
+        { s with stim := (s.stim.splitOn "@").getD 0 s.stim }
+    else if s.mode == "conc" ∨ s.mode == "concw" then
       if !s.haveAbs then { s with absNv := s.implNv, absXv := xv, haveAbs := true }
       else
         let s := { s with concPairs := s.concPairs + 1 }
